@@ -86,7 +86,8 @@ GovPrefix == <<"signed", Sep>> \o Render(GovChain) \o <<Sep, GovEm>>
 IsPrefix(p, k) == Len(p) <= Len(k) /\ SubSeq(k, 1, Len(p)) = p
 
 \* Badger's content given what was stored (last writer wins per key).  Exact when Key is injective (KeyInjectiveOn).
-KV == [k \in {Key(i) : i \in DOMAIN vaas} |-> Val(CHOOSE j \in DOMAIN vaas : Key(j) = k)]
+KV == LET pairs == {<<Key(i), i>> : i \in DOMAIN vaas}         \* every key rendered once
+      IN [k \in {p[1] : p \in pairs} |-> Val((CHOOSE p \in pairs : p[1] = k)[2])]
 ScanIn(kv, p) == {k \in DOMAIN kv : IsPrefix(p, k)}
 
 Slashes(k) == {n \in 1..Len(k) : k[n] = Sep}
@@ -104,11 +105,11 @@ GovIn(kv, seqs) ==
 NonGovIn(kv, st, seqs) ==
     {[seq |-> q, val |-> kv[Key(IdOf(st, q))]] : q \in {s \in seqs : Key(IdOf(st, s)) \in DOMAIN kv}}
 
-ImplGet(i) == GetIn(KV, i)
-ImplScanIds(st) == ScanIdsIn(KV, st)
-ImplGap(st) == GapIn(KV, st)
-ImplGov(seqs) == GovIn(KV, seqs)
-ImplNonGov(st, seqs) == NonGovIn(KV, st, seqs)
+ImplGet(i) == LET kv == KV IN GetIn(kv, i)                        \* LET: the content is computed once per query
+ImplScanIds(st) == LET kv == KV IN ScanIdsIn(kv, st)
+ImplGap(st) == LET kv == KV IN GapIn(kv, st)
+ImplGov(seqs) == LET kv == KV IN GovIn(kv, seqs)
+ImplNonGov(st, seqs) == LET kv == KV IN NonGovIn(kv, st, seqs)
 
 \* ------------------------------------------------------------------ refinement lemmas (C12), over given universes
 KeyInjectiveOn(I) == Cardinality({Key(i) : i \in I}) = Cardinality(I)
@@ -181,8 +182,14 @@ BackfillOK(st, fills, served) ==
     /\ fills \subseteq served
     /\ \A v \in fills : Stream(v.id) = st /\ (pre.empty \/ v.id.seq \in pre.missing)
     /\ \A v, w \in fills : v.id = w.id => v = w
-RECURSIVE StoreAll(_, _)
-StoreAll(S, vs) == IF vs = {} THEN S ELSE LET v == CHOOSE x \in vs : TRUE IN StoreAll(StoreF(S, v), vs \ {v})
+\* Store(v) for every v of a set of VAAs with pairwise different identifiers (the order does not matter then).
+StoreAll(S, vs) ==
+    LET ids == {v.id : v \in vs}
+        tagOf(i) == (CHOOSE v \in vs : v.id = i).tag
+    IN [vaas |-> [i \in DOMAIN S.vaas \cup ids |-> IF i \in ids THEN tagOf(i) ELSE S.vaas[i]],
+        acked |-> S.acked,
+        pending |-> [i \in DOMAIN S.pending \cup ids |-> IF i \in ids THEN SetAt(S.pending, i) \cup {tagOf(i)} ELSE S.pending[i]],
+        written |-> [i \in DOMAIN S.written \cup ids |-> IF i \in ids THEN SetAt(S.written, i) \cup {tagOf(i)} ELSE S.written[i]]]
 GapBackfill(st, fills, served, failed) ==
     /\ up
     /\ BackfillOK(st, fills, served)
